@@ -30,22 +30,8 @@ static void env_reset(void) { ksim_reset(); ksim_rxcap = 32; ksim_dgcap = 4; ksi
 static void env_set_block(jmp_buf *jb) { ksim_set_block_handler(jb); }
 static const char *ENVNAME = "ksim";
 #else
-#include <sched.h>
-#include <net/if.h>
-#include <sys/ioctl.h>
-/* the real-kernel replay runs in a network namespace of its own when the sandbox allows it: own loopback, own ephemeral ports and TIME_WAIT table,
- * so that neither an earlier run nor a concurrent one can take a port away (returns 1 on success; without it the driver serialises the replays) */
-static int private_netns(void)
-{
-    struct ifreq ifr; int s, ok;
-    if (unshare(CLONE_NEWNET) < 0) return 0;
-    s = socket(AF_INET, SOCK_DGRAM, 0); if (s < 0) return 0;
-    memset(&ifr, 0, sizeof ifr); strcpy(ifr.ifr_name, "lo");
-    ok = ioctl(s, SIOCGIFFLAGS, &ifr) == 0; ifr.ifr_flags |= IFF_UP | IFF_RUNNING; ok = ok && ioctl(s, SIOCSIFFLAGS, &ifr) == 0;
-    close(s);
-    if (!ok) { fprintf(stderr, "private network namespace without a usable loopback\n"); exit(2); }
-    return 1;
-}
+#include "netns.h"
+#define private_netns verif_private_netns
 static unsigned long vclock; static long blocking_polls; static jmp_buf *blk;
 int __real_poll(struct pollfd *, nfds_t, int);
 int __wrap_poll(struct pollfd *f, nfds_t n, int timeout)
@@ -364,7 +350,7 @@ int main(int argc, char **argv)
     if (argc < 5) return 2;
     hout_open(); p_libsys_init();
 #ifndef USE_KSIM
-    if (!getenv("VERIF_NO_NETNS")) hout_stat("private_network_namespace", private_netns());
+    hout_stat("private_network_namespace", private_netns());
 #endif
     KINDNAME = argv[2]; DGRAM = !strncmp(argv[2], "dgram", 5); FROMFD = strstr(argv[2], "-fd") != NULL; FAM = atoi(argv[3]);
     if (!strcmp(argv[1], "replay")) {
